@@ -1,7 +1,7 @@
 (* C15, history level: no timestamp from the future; the life-cycle table applies in every reachable state; the tick leaves the session automaton alone.
    Statements only: each theorem restates the full type of a lemma proved in coq/proofs and is closed by
    `exact`; Print Assumptions beneath.  Regenerate with bin/genprops.py after a lemma changes. *)
-From LLTD Require Import Automata Sys AutomataHistory.
+From LLTD Require Import Automata Sys AutomataHistory SpecExec ExpectSound.
 
 Theorem C15_after_any_history :
   forall (af sf : N -> bool) (junk : N) (ops : list op) (y : sys) (w : world),
@@ -52,3 +52,21 @@ Theorem C15_tick_after_any_history :
   a_sess (aset_of y' ctx) = a_sess (aset_of y1 ctx).
 Proof. exact C15_history_tick. Qed.
 Print Assumptions C15_tick_after_any_history.
+
+Theorem C15_runtime_expectation_sound :
+  forall (s : N) (ev : Z) (now_s last x : N),
+  (s < 4)%N ->
+  (0 <= ev <= 7)%Z ->
+  (last <= now_s)%N ->
+  (now_s < W64)%N ->
+  session_expect s ev (now_s - last) = Some x ->
+  let a' := switch_session {| a_cur := s; a_last := last |} now_s ev in
+  a_cur a' = x /\ a_last a' = now_s.
+Proof. exact session_expect_sound. Qed.
+Print Assumptions C15_runtime_expectation_sound.
+
+Theorem C15_runtime_expectation_total :
+  forall (s : N) (ev : Z) (elapsed : N),
+  (s < 4)%N -> (0 <= ev <= 7)%Z -> exists x : N, session_expect s ev elapsed = Some x.
+Proof. exact session_expect_defined. Qed.
+Print Assumptions C15_runtime_expectation_total.
